@@ -139,10 +139,11 @@ func liveAppends(pa *provAnalysis, fr *Frame) []provSet {
 }
 
 func checkC08(c *Ctx, r *Report) {
-	r.Rules = []string{"R-conffiles (deb, ipk)", "R-backup (archlinux)", "R-rpmflag", "R-ghost-mode", "R-deb-skips-ghost", "F11 glob expansion keeps the declared type", "cross-check of rpmpack flag constants (thorough)", "R-rpm-only rpm-only entry types planned for rpm only", "R-rpmflag-field every rpm file record's Type is set from its own FileType value", "R-prepared contents are read from the prepared Info only", "R-type-stable an entry's type is assigned only on entries the assigning function has just created"}
+	r.Rules = []string{"R-conffiles (deb, ipk)", "R-backup (archlinux)", "R-rpmflag", "R-ghost-mode", "R-deb-skips-ghost", "F11 glob expansion keeps the declared type", "cross-check of rpmpack flag constants (thorough)", "R-rpm-only rpm-only entry types planned for rpm only", "R-rpmflag-field every rpm file record's Type is set from its own FileType value", "R-prepared contents are read from the prepared Info only", "R-type-stable an entry's type is assigned only on entries the assigning function has just created", "R-copy-type an entry rebuilt from another takes its type over", "plan-K2c (imported from C05)"}
 	r.Explanation = "Exhaustive decision of the (prepared entry type x packager) registration matrix by abstract evaluation over go/ssa: for every prepared type the deb and ipk conffiles builders and the archlinux backup loop are evaluated with the entry's type fixed, and registration (an append of the absolute destination / a 'backup' key-value write of the relative destination) must be live exactly for config, config|noreplace and config|missingok; the rpm payload writer is evaluated likewise and the set of rpmpack file-type constants that can reach the file constructor must be exactly the RPMFILE_* value the statement names for that type; the ghost default mode 0644 is stored iff the mode is 0; deb skips ghost entries; glob expansion copies the declaring entry's type. Together with the relevance table of C05 (types that never reach a format) this covers every cell; nothing is executed."
 	r.Explanation += " (R-rpmflag-field) every rpm file record's Type field is stored from a FileType value of its own construction on every path. (R-prepared) after Package has handed an Info to nfpm.PrepareForPackager, every function that reads .Contents reads it from that same Info (followed through parameters, captured variables and identity-returning helpers)."
 	r.Explanation += " (R-type-stable) every store to a Content's Type field targets an allocation of the storing function or the result of a function that returns only fresh allocations."
+	r.Explanation += " (R-copy-type) every new Content whose fields are loaded from the like-named fields of an existing entry also sets Type."
 	r.Assumptions = []string{
 		"rpmpack's FileType constants carry the RPMFILE_* values (checked against the constants' values as compiled; rpmpack's use of them is the dependency's)",
 		"what a glob matches on disk is not analysed",
@@ -251,6 +252,11 @@ func checkC08(c *Ctx, r *Report) {
 
 	checkPreparedInfo(c, r)
 	checkTypeStable(c, r)
+	checkCopiesKeepType(c, r)
+	// a declared entry is never dropped in favour of an earlier one without
+	// the collision being reported (rule of C05): the typed entry of an
+	// overlapping pair would otherwise lose its registration silently
+	r.Floor("plan-K2c", importRules(c, r, checkC05, "plan-", []string{"K2c"}, nil), 4)
 
 	// ---- rpm flags ----
 	if pk := c.PackagerByFormat("rpm"); pk != nil {
@@ -951,4 +957,54 @@ func checkTypeStable(c *Ctx, r *Report) {
 		})
 	}
 	r.Floor("R-type-stable", n, 4)
+}
+
+// checkCopiesKeepType (R-copy-type): wherever an entry is rebuilt from another
+// entry - a new Content whose fields are loaded from the like-named fields of
+// an existing one - the type is taken over as well. An entry that loses its
+// type on the way is packaged as a plain file: no conffiles line, no %config
+// flag, no backup entry, and rpm-only types slip into other formats.
+func checkCopiesKeepType(c *Ctx, r *Report) {
+	n := 0
+	for _, fn := range c.ModFuncs {
+		if strings.HasPrefix(c.funcPkgPath(fn), modPath+"/internal/cmd") {
+			continue
+		}
+		k := 0
+		forEachInstr(fn, func(in ssa.Instruction) {
+			al, ok := in.(*ssa.Alloc)
+			if !ok || !isNamed(derefType(al.Type()), filesPath, "Content") || al.Referrers() == nil {
+				return
+			}
+			copied := map[string]bool{}
+			set := map[string]bool{}
+			for _, ref := range *al.Referrers() {
+				fa, ok := ref.(*ssa.FieldAddr)
+				if !ok || fa.Referrers() == nil {
+					continue
+				}
+				name := fieldName(fa.X.Type(), fa.Field)
+				for _, r2 := range *fa.Referrers() {
+					st, ok := r2.(*ssa.Store)
+					if !ok || st.Addr != ssa.Value(fa) {
+						continue
+					}
+					set[name] = true
+					if ld, isLd := st.Val.(*ssa.UnOp); isLd && ld.Op == token.MUL {
+						if fa2, isFA := ld.X.(*ssa.FieldAddr); isFA && isContentPtr(fa2.X.Type()) && fieldName(fa2.X.Type(), fa2.Field) == name {
+							copied[name] = true
+						}
+					}
+				}
+			}
+			if !(copied["Source"] && copied["Destination"]) && len(copied) < 2 {
+				return
+			}
+			n++
+			k++
+			r.Check(set["Type"], "R-copy-type", fmt.Sprintf("entry copy#%d in %s takes the type over", k, c.funcKey(fn)), c.instrPos(al),
+				fmt.Sprintf("the new entry copies %s from an existing entry but never sets Type: it would be planned and packaged as a plain file whatever the configuration declared", joinSorted(copied)))
+		})
+	}
+	r.Floor("R-copy-type", n, 1)
 }
